@@ -426,11 +426,12 @@ fn in_subnet_addr(rng: &mut Rng, i: &IfSpec, v4: bool) -> Option<IpAddr> {
 pub fn scenario(seed: u64, upper_case: bool) -> Made {
     let mut rng = Rng::new(seed);
     let mut w = World::new(seed);
-    w.stepping = match rng.below(4) {
+    let s = match rng.below(4) {
         0 => Stepping::Eager(10),
         1 => Stepping::Eager(50),
         _ => Stepping::Lazy,
     };
+    w.set_stepping(s);
     let ifs = match rng.below(6) {
         0 => scen::single_v4(),
         1 => scen::single_dual(),
